@@ -219,6 +219,10 @@ def alp_chip_min(kind, lane_id, bc):
 def conforming_stream(R, nlinks=None, max_hbf=4, layers=None, df=None, ver=None, mode=None, hits=True):
     """returns (pkts, meta): a conforming multi-link stream as a list of Pkt in file order"""
     nl = nlinks if nlinks is not None else R.randint(1, 6)
+    # RDH version and data format are per-link properties (each link validator learns its own header id;
+    # the slot size is read from each packet's header): a third of the streams mix them across links
+    mix_ver = ver is None and R.random() < 0.3
+    mix_df = df is None and R.random() < 0.3
     ver = ver if ver is not None else R.choice([6, 7])
     df = df if df is not None else R.choice([0, 2])
     links, used = [], set()
@@ -228,7 +232,7 @@ def conforming_stream(R, nlinks=None, max_hbf=4, layers=None, df=None, ver=None,
             stave = R.randint(0, 11)
             if (layer, stave) not in used: break
         used.add((layer, stave))
-        links.append(Link(R, l if nl <= 12 else l % 12, layer, stave, df, ver))
+        links.append(Link(R, l if nl <= 12 else l % 12, layer, stave, R.choice([0, 2]) if mix_df else df, R.choice([6, 7]) if mix_ver else ver))
     seqs = [sum((lk.hbf(hits=hits) for _ in range(R.randint(1, max_hbf))), []) for lk in links]
     mode = mode or R.choice(['contig', 'rr', 'rand'])
     out = []
@@ -243,8 +247,24 @@ def conforming_stream(R, nlinks=None, max_hbf=4, layers=None, df=None, ver=None,
             k += 1
             out.append(seqs[i][idx[i]]); idx[i] += 1
     meta = dict(links=[dict(link=lk.link, fee=lk.fee, kind=lk.kind, layer=lk.layer, stave=lk.stave) for lk in links],
-                ver=ver, df=df, mode=mode, npkts=len(out))
+                ver=ver if not mix_ver else 'mixed', df=df if not mix_df else 'mixed', mode=mode, npkts=len(out))
     return out, meta
+
+
+def switch_format(R, pk):
+    """one link changes its data format at an HBF boundary (header and payload layout together, so the
+    layout still agrees with each packet's own header); returns the indices of the switched packets"""
+    links = sorted({p.rdh['link'] for p in pk})
+    l = R.choice(links)
+    idx = [i for i, p in enumerate(pk) if p.rdh['link'] == l]
+    starts = [i for i in idx[1:] if pk[i].rdh['page'] == 0]
+    if not starts: return []
+    s0 = R.choice(starts)
+    sw = [i for i in idx if i >= s0 and pk[i].raw_payload is None]
+    for i in sw:
+        pk[i].fmt = 0 if pk[i].fmt == 2 else 2
+        pk[i].rdh['df'] = pk[i].fmt
+    return sw
 
 
 # ---------------------------------------------------------------- well-framed random streams (C03/C08/C14)
